@@ -58,3 +58,38 @@ Proof.
     { apply N.ltb_ge. unfold lenN in *. rewrite !app_length. cbn [length]. lia. }
     rewrite E2. rewrite <- app_assoc. split; reflexivity.
 Qed.
+
+(* ---------- entering a function: return address under the arguments, first argument on top ---------- *)
+Lemma pushes_ok : forall xs r, r_slen r + lenN xs <= MAX_POOL ->
+  fold_left (fun m a => rdo _ <~ m ;; push a) xs (rret tt) r
+  = (set_stack_len r (rev xs ++ r_stack r) (r_slen r + lenN xs), Ok tt).
+Proof.
+  assert (G : forall xs (m0 : RM unit) r r0, m0 r = (r0, Ok tt) -> r_slen r0 + lenN xs <= MAX_POOL ->
+            fold_left (fun m a => rdo _ <~ m ;; push a) xs m0 r
+            = (set_stack_len r0 (rev xs ++ r_stack r0) (r_slen r0 + lenN xs), Ok tt)).
+  { induction xs as [| x xs IH]; intros m0 r r0 H0 Hb; cbn [fold_left].
+    - rewrite H0. cbn [rev app]. unfold lenN. cbn [List.length]. rewrite N.add_0_r. destruct r0; reflexivity.
+    - assert (Hl : lenN (x :: xs) = 1 + lenN xs) by (unfold lenN; cbn [List.length]; lia).
+      rewrite (IH (rdo _ <~ m0 ;; push x) r (set_stack_len r0 (x :: r_stack r0) (r_slen r0 + 1))).
+      + cbn [r_stack r_slen set_stack_len rev]. rewrite <- app_assoc. cbn [app]. rewrite Hl.
+        replace (r_slen r0 + 1 + lenN xs) with (r_slen r0 + (1 + lenN xs)) by lia. reflexivity.
+      + unfold rbind. rewrite H0. unfold push. cbn [r_slen set_stack_len r_stack].
+        destruct (N.ltb_spec MAX_POOL (r_slen r0 + 1)); [lia | reflexivity].
+      + cbn [r_slen set_stack_len]. lia. }
+  intros xs r Hb. exact (G xs (rret tt) r r eq_refl Hb).
+Qed.
+
+Theorem call_enters : forall name r r1 args arity addr, pop_vec r = (r1, Ok args) ->
+  alist_get name (r_fns r1) = Some (arity, addr) -> arity = lenN args -> r_slen r1 + 1 + lenN args <= MAX_POOL ->
+  exists r2, do_fn name r = (r2, Ok tt)
+    /\ r_stack r2 = args ++ VRet (r_pc r1) :: r_stack r1 /\ r_pc r2 = addr
+    /\ r_vars r2 = r_vars r1 /\ r_fns r2 = r_fns r1 /\ r_prog r2 = r_prog r1 /\ r_state r2 = r_state r1.
+Proof.
+  intros name r r1 args arity addr Hp Hf Ha Hb. unfold do_fn. unfold rbind at 1. rewrite Hp. unfold rbind at 1. unfold rget at 1.
+  rewrite Hf. rewrite Ha, N.eqb_refl. unfold rbind at 1. unfold push at 1.
+  cbn [r_slen set_stack_len r_stack]. destruct (N.ltb_spec MAX_POOL (r_slen r1 + 1)); [lia |].
+  unfold rbind at 1.
+  rewrite pushes_ok by (cbn [r_slen set_stack_len]; unfold lenN; rewrite rev_length; unfold lenN in Hb; lia).
+  unfold rmod. eexists. split; [reflexivity |]. cbn [r_stack r_pc r_vars r_fns r_prog r_state set_pc set_stack_len]. rewrite rev_involutive.
+  repeat split; reflexivity.
+Qed.
